@@ -137,8 +137,8 @@ def obligations(tier):
         obs.append(Ob(name=f'rotation/n={n}/k={k}', engine='bvx', sym=sym, concrete=concrete, P={'family': 'distinct', 'k': k, 'n': n},
                       timeout=600 if q else 3000, bounds=f'{n} node(s) with distinct addresses, {k} client requests, what each meets is chosen by the solver among 7 kinds',
                       targets=TARGETS, stubs=STUBS, opts={'W': 16}))
-    for n in (2, 3):
-        k = 3 if q else 4
+    for n in ((2, 3) if q else (2, 3, 4)):
+        k = 3       # 16^k (verb, outcome) vectors per pool; k = 4 is not measured
         obs.append(Ob(name=f'rotation/verbs/n={n}/k={k}', engine='bvx', sym=sym, concrete=concrete, P={'family': 'distinct', 'k': k, 'n': n, 'verbs': True},
                       timeout=600 if q else 3000, bounds=f'{n} nodes, {k} client requests, each issued through request/get/post/delete (solver-chosen) and meeting one of 4 kinds (200, 404, 500, transient then 200)',
                       targets=TARGETS + ['pytezos.rpc.node.RpcNode.get/post/delete'], stubs=STUBS, opts={'W': 16}))
